@@ -18,11 +18,19 @@ type genCtx struct {
 	closed bool     // inside a function literal: outer loops/labels are not reachable
 	lbl    int
 	condI  int
+	level  int // nesting level of the construct whose own statements are being generated (leaf = depth)
+	mask   int // bit k set: the trace statements of level k suspend the goroutine (the function becomes resumable)
 }
 
 var conds = []string{"in0", "in1", "!in0", "in0 != in1", "in0 && in1"}
 
-func (c *genCtx) t() string { c.n++; return fmt.Sprintf("tr(%d)", c.n) }
+func (c *genCtx) t() string {
+	c.n++
+	if c.mask>>uint(c.level)&1 != 0 {
+		return fmt.Sprintf("trb(%d)", c.n)
+	}
+	return fmt.Sprintf("tr(%d)", c.n)
+}
 func (c *genCtx) cond() string {
 	c.condI++
 	return conds[c.condI%len(conds)]
@@ -152,7 +160,8 @@ func leaves(c *genCtx) []func(c *genCtx) string {
 }
 
 // skeletons enumerates all nestings of the given depth; returns function bodies with ids.
-func skeletons(depth int) (ids []string, bodies []string) {
+// mask selects the nesting levels whose trace statements suspend (0 = an ordinary function).
+func skeletons(depth, mask int) (ids []string, bodies []string) {
 	var rec func(level int, path []int, names []string)
 	rec = func(level int, path []int, names []string) {
 		if level == depth {
@@ -173,16 +182,26 @@ func skeletons(depth int) (ids []string, bodies []string) {
 			}
 			for li := 0; li < nLeaves; li++ {
 				for rot := 0; rot < 2; rot++ {
-					c := &genCtx{condI: rot * 2}
+					c := &genCtx{condI: rot * 2, mask: mask}
 					var build func(i int, c *genCtx) string
 					build = func(i int, c *genCtx) string {
 						if i == len(path) {
 							return leaves(c)[li](c)
 						}
-						return constructs[path[i]].gen(c, func(c2 *genCtx) string { return build(i+1, c2) })
+						return constructs[path[i]].gen(c, func(c2 *genCtx) string {
+							old := c2.level
+							c2.level = i + 1
+							s := build(i+1, c2)
+							c2.level = old
+							return s
+						})
 					}
 					body := build(0, c)
-					ids = append(ids, fmt.Sprintf("%s/leaf=%d/rot=%d", strings.Join(names, "+"), li, rot))
+					id := fmt.Sprintf("%s/leaf=%d/rot=%d", strings.Join(names, "+"), li, rot)
+					if mask != 0 {
+						id += fmt.Sprintf("/blocking-levels=%d", mask)
+					}
+					ids = append(ids, id)
 					bodies = append(bodies, body)
 				}
 			}
@@ -202,6 +221,12 @@ var trace string
 var fuelLeft int
 
 func tr(n int)   { trace += itoa(int64(n)) + "," }
+func trb(n int) {
+	trace += itoa(int64(n)) + "b,"
+	c := make(chan bool)
+	go func() { c <- true }()
+	<-c
+}
 func trv(v Int)  { trace += "v" + itoa(int64(v)) + "," }
 func fuel() int  { fuelLeft--; return fuelLeft }
 func b2i(b bool) int {
@@ -213,8 +238,12 @@ func b2i(b bool) int {
 `
 
 // Programs returns the G1 programs (depth = nesting of constructs above the leaf).
-func Programs(depth int, perProgram int) []diffrun.Program {
-	ids, bodies := skeletons(depth)
+func Programs(depth int, perProgram int) []diffrun.Program { return ProgramsMask(depth, perProgram, 0) }
+
+// ProgramsMask: the same skeletons with the trace statements of the nesting levels in mask suspending the
+// goroutine, so that the enclosing constructs are compiled into their resumable form while the others stay native.
+func ProgramsMask(depth int, perProgram int, mask int) []diffrun.Program {
+	ids, bodies := skeletons(depth, mask)
 	var ps []diffrun.Program
 	for start := 0; start < len(ids); start += perProgram {
 		end := start + perProgram
@@ -231,7 +260,11 @@ func Programs(depth int, perProgram int) []diffrun.Program {
 			fmt.Fprintf(&b, "\t{%q, sk%d},\n", ids[i], i)
 		}
 		b.WriteString("}\n\nfunc main() {\n\tfor _, e := range table {\n\t\ts := \"\"\n\t\tfor v := 0; v < 4; v++ {\n\t\t\ttrace = \"\"\n\t\t\tfuelLeft = 4\n\t\t\te.f(v&1 != 0, v&2 != 0)\n\t\t\ts += trace + \"|\"\n\t\t}\n\t\tprintln(\"C01/ctl/\"+e.id, s)\n\t}\n}\n")
-		ps = append(ps, diffrun.Program{Name: fmt.Sprintf("c01_ctl_d%d_%03d", depth, len(ps)), Files: map[string]string{"main.go": b.String()}})
+		name := fmt.Sprintf("c01_ctl_d%d_%03d", depth, len(ps))
+		if mask != 0 {
+			name = fmt.Sprintf("c01_ctl_d%d_b%d_%03d", depth, mask, len(ps))
+		}
+		ps = append(ps, diffrun.Program{Name: name, Files: map[string]string{"main.go": b.String()}})
 	}
 	return ps
 }
